@@ -4,6 +4,7 @@ import (
 	"bytes"
 	"encoding/json"
 	"fmt"
+	"hash/fnv"
 	"math"
 	"os"
 	"path/filepath"
@@ -12,6 +13,7 @@ import (
 	"strconv"
 	"strings"
 	"sync"
+	"sync/atomic"
 	"testing"
 	"unicode/utf8"
 
@@ -38,7 +40,7 @@ var specC16 = report.Spec{Property: "C16", Check: "C16",
 	Rule: "the 14 built-in documents and the repository's test document, mutated 0-4 deep by a structure aware mutator over the parsed JSON tree (delete key, drop array element, replace by a value of another JSON type, replace a number by one of {0,-1,0.5,1.5,2^53,-2^53,2,256}, replace a string, " +
 		"swap the crs for each of its three forms (uri string/object, wkt with id, referenceSystem), re-spell a crs uri as object or string, extend an array, duplicate a tile matrix id), half of the mutations aimed at tile matrix fields, one third of the multi-mutation cases focused on one sub tree (a tile matrix, a variableMatrixWidths entry, the bounding box, the crs). Oracle: (a) decoding never panics; (b) if decoding succeeds: encoding succeeds, decode(encode(x)) equals x (field by field, a nil and an empty list being the same value) and behaves like x through the API (MatrixBoundingBox and FromNative per tile matrix: same result or same failure), and encode(decode(encode(x))) is byte-identical to encode(x); " +
 		"(c) unmutated documents: encode(decode(doc)) equals doc as JSON values; (c') the encoding of a value decoded earlier in the run (one retained value per shipped document) does not change when other documents are decoded in between; (d) must-reject (decided by an independent predicate over the JSON tree): crs or tileMatrices missing/null/of the wrong JSON type, tileMatrices empty or holding a non-object, a required tile matrix field (id, scaleDenominator, cellSize, pointOfOrigin, tileWidth, tileHeight, matrixWidth, matrixHeight) missing or of the wrong JSON type, " +
-		"pointOfOrigin not two numbers, a size field (sizes, cellSize, scaleDenominator) <= 0, id not an integer string => decoding returns an error. Other mutants may go either way. Non-trivial: >= 1 mutation and (still decodes, or falls in a must-reject class). Distinct by (base, mutations).",
+		"pointOfOrigin not two numbers, a size field (sizes, cellSize, scaleDenominator) <= 0, id not an integer string => decoding returns an error. Other mutants may go either way. (e) one case in three (by content): tms20.LoadJSONTileMatrixSet on a file with the same bytes gives the same verdict and value as decoding the bytes, and a document followed by anything but white space (a second value, a stray bracket, a number, merge conflict text) is refused by both routes. Non-trivial: >= 1 mutation and (still decodes, or falls in a must-reject class). Distinct by (base, mutations).",
 	Assumptions: []string{"numbers are confined to |v| <= 2^53", "equality of decoded values: structural, nil and empty lists identified, plus indistinguishable through MatrixBoundingBox/FromNative"}}
 
 var (
@@ -461,6 +463,16 @@ func oracleC16(c DocCase) (o report.Outcome) {
 	o.Label("mutations=%d", len(c.Muts))
 	reject, why := mustReject(doc)
 	x, err, pan := decodeTMS(b)
+	if h := fnv.New32a(); true { // (one case in three, decided by the content: the file route)
+		h.Write(b)
+		if h.Sum32()%3 == 0 {
+			if why := fileRoute(b, x, err, pan); why != "" {
+				o.Failf([]string{"file-loader"}, "%s; document (%s + %s): %.400s", why, c.Base, mustJSON(c.Muts), b)
+				return o
+			}
+			o.Label("file route compared")
+		}
+	}
 	if pan != nil {
 		o.Failf([]string{"panic"}, "decoding panicked: %v; document (%s + %s): %.600s", pan, c.Base, mustJSON(c.Muts), b)
 		return o
@@ -519,6 +531,48 @@ func oracleC16(c DocCase) (o report.Outcome) {
 		}
 	}
 	return o
+}
+
+var (
+	c16DirOnce sync.Once
+	c16Dir     string
+	c16Seq     int64
+)
+
+// fileRoute: tms20.LoadJSONTileMatrixSet on a file holding exactly these bytes must agree with decoding the bytes (same
+// verdict, same value), and a file holding the document followed by anything but white space is a malformed document: both
+// routes must refuse it.
+func fileRoute(b []byte, x *tms20.TileMatrixSet, err error, pan any) string {
+	c16DirOnce.Do(func() { c16Dir = scratchDir("c16") })
+	path := filepath.Join(c16Dir, fmt.Sprintf("doc-%d.json", atomic.AddInt64(&c16Seq, 1)))
+	defer os.Remove(path)
+	load := func(content []byte) (v tms20.TileMatrixSet, lerr error, lpan any) {
+		defer func() { lpan = recover() }()
+		if werr := os.WriteFile(path, content, 0o644); werr != nil {
+			panic("harness: " + werr.Error())
+		}
+		v, lerr = tms20.LoadJSONTileMatrixSet(path)
+		return v, lerr, nil
+	}
+	fv, ferr, fpan := load(b)
+	if (fpan != nil) != (pan != nil) || (ferr != nil) != (err != nil) {
+		return fmt.Sprintf("LoadJSONTileMatrixSet on a file with these bytes: error %v panic %v, decoding the bytes: error %v panic %v", ferr, fpan, err, pan)
+	}
+	if err == nil && pan == nil {
+		if why := semanticDiff(reflect.ValueOf(x), reflect.ValueOf(&fv), "x"); why != "" {
+			return "LoadJSONTileMatrixSet returns another value than decoding the same bytes, at " + why
+		}
+		tails := []string{"\n{}", "]", " 0", "\n<<<<<<< HEAD\n", " null", "\n" + string(b), "}"}
+		tail := tails[len(b)%len(tails)]
+		bt := append(append([]byte{}, b...), tail...)
+		if _, merr, mpan := decodeTMS(bt); merr == nil && mpan == nil {
+			return fmt.Sprintf("decoding accepts the document followed by %q", tail)
+		}
+		if _, terr, tpan := load(bt); terr == nil && tpan == nil {
+			return fmt.Sprintf("LoadJSONTileMatrixSet accepts a file holding the document followed by %q", tail)
+		}
+	}
+	return ""
 }
 
 // retained values: every shipped document is decoded once and kept together with its encoding. The encoding of a value that
